@@ -193,6 +193,15 @@ def check_declared_inputs(model: Model, modname: str, rr: RuleResult):
                                     shape_ok = True
                         if shape_ok:
                             helper_keys = got
+            # the same shapes written in place: implicit=[variables[k] for k in ("a", "b")] / [variables["a"], variables["b"]]
+            if helper_keys is None and isinstance(edge.variables, ast.Name):
+                for x in (edge.inputs, edge.implicit):
+                    vn = edge.variables.id
+                    if isinstance(x, ast.ListComp) and isinstance(x.elt, ast.Subscript) and norm(x.elt.value) == vn and len(x.generators) == 1 and not x.generators[0].ifs \
+                            and isinstance(x.generators[0].iter, (ast.Tuple, ast.List)) and norm(x.elt.slice) == norm(x.generators[0].target):
+                        helper_keys = (helper_keys or set()) | {e.value for e in x.generators[0].iter.elts if isinstance(e, ast.Constant)}
+                    elif isinstance(x, (ast.List, ast.Tuple)) and x.elts and all(isinstance(e, ast.Subscript) and norm(e.value) == vn and isinstance(e.slice, ast.Constant) for e in x.elts):
+                        helper_keys = (helper_keys or set()) | {e.slice.value for e in x.elts}
             for k, val in keys.items():
                 exc = R09B_EXCEPTIONS.get((f"{modname}.{fi.qualname}", k))
                 is_path = k.endswith(("_file", "_font", "_dir")) or (val is not None and any(
@@ -548,6 +557,8 @@ def _only_logging_after(fi: FuncInfo, call: ast.Call) -> Optional[str]:
             pass
         elif node.kind == "stmt" and isinstance(a, (ast.Pass,)):
             pass
+        elif isinstance(a, ast.Return) and (a.value is None or isinstance(a.value, (ast.Constant, ast.Name))):
+            pass  # handing back nothing / a plain value cannot fail
         else:
             return node.text()
         todo += [t for t, lab in node.succs if lab != "exc"]
